@@ -3,7 +3,7 @@ import multiprocessing as mp
 import os
 import traceback
 
-from .errors import AnalysisError
+from .errors import AnalysisError, PyExc
 
 _SESSIONS = {}
 
@@ -34,6 +34,17 @@ def _work(args):
                     # the repository functions interpreted for this configuration (the path the report is about)
                     f['call_path'] = sorted(k.replace('pytorch_wavelets.', '') for k in delta)
         return ('ok', (r, delta))
+    except PyExc as e:
+        # the analysed program raises outside the calls the driver guards (a constructor, a preparation helper):
+        # for a configuration of the grid that is a violation in its own right
+        loc = getattr(e, 'loc', None)
+        where = getattr(loc, 'func', None) or fn.__name__
+        f = {'rule': 'RAISES', 'construct': str(where), 'discriminator': 'setup-raises-%s' % e.name,
+             'msg': 'setting up configuration %r raises %s: %s' % (item, e.name, str(e.msg)[:160]),
+             'severity': 'violation', 'file': getattr(loc, 'file', None), 'line': getattr(loc, 'line', None),
+             'function': getattr(loc, 'func', None), 'statement': getattr(loc, 'text', None), 'call_path': [],
+             'detail': {'config': repr(item)}}
+        return ('ok', ({'cmp': 1, 'diff': 1, 'findings': [f], 'sample': None}, {}))
     except AnalysisError as e:
         return ('analysis-error', (e.kind, e.msg + ((' at %s' % (e.loc,)) if getattr(e, 'loc', None) else '')
                                    + ' [config %r]' % (item,)))
